@@ -76,6 +76,11 @@ pub const ROOT_FENS: &[(&str, &str)] = &[
     // double check by TWO SLIDERS (one moves off the other's line and checks itself) while a third
     // slider pins a defender; mirrors reverse the scan order
     ("check", "4k1nQ/3R4/8/8/B7/8/8/4K3 w - - 0 1"),
+    // a knight promotion that gives check and discovers a slider check, while a further slider pins a man
+    // (pinner after / before the checkers in square order)
+    ("check", "2B3B1/3P1p2/4k3/8/8/8/8/K7 w - - 0 1"),
+    ("check", "1B3B2/2p1P3/3k4/8/8/8/8/K7 w - - 0 1"),
+    ("check", "2B3Q1/3P1p2/4k3/8/8/8/8/K6R w - - 0 1"),
     // two men pinned along different lines (same kind and different kinds)
     ("check", "4r1k1/8/8/8/8/8/4R3/r2RK3 w - - 0 1"),
     ("check", "4r1k1/8/8/8/1b6/8/3NR3/4K3 w - - 0 1"),
@@ -103,6 +108,13 @@ pub const ROOT_FENS: &[(&str, &str)] = &[
     ("many", "r1b1k1n1/1n1q1b1r/1p1p1p1p/p1p1p1p1/1P1P1P1P/P1P1P1P1/1N1Q1B1R/R1B1K1N1 w Qq - 0 1"),
     ("many", "1r1b1k1n/n1q1b1r1/p1p1p1p1/1p1p1p1p/P1P1P1P1/1P1P1P1P/N1Q1B1R1/1R1B1K1N b - - 0 1"),
     ("many", "1r1b1k1n/n1q1b1r1/1p1p1p1p/p1p1p1p1/1P1P1P1P/P1P1P1P1/N1Q1B1R1/1R1B1K1N b - b3 0 1"),
+    // --- a king with a pinned man on all eight rays and twelve enemy sliders aligned with it (batteries behind the pinners)
+    ("many", "B7/1Q1R1Q2/2ppb3/QQnknQQ1/2ppp3/1Q1Q1Q2/3R4/7K w - - 0 1"),
+    ("many", "B7/1Q1R1Q2/2ppb3/QQnknQQ1/2ppp3/1Q1Q1Q2/3R4/7K b - - 0 1"),
+    // --- ten men of one kind (two original + eight promoted): the maximum
+    ("many", "4k3/8/8/8/8/NNNNN3/NNNNN3/4K3 w - - 0 1"),
+    ("many", "7k/8/8/8/8/RRRRR3/RRRRR3/4K3 w - - 0 1"),
+    ("many", "3k4/8/8/8/8/1BBBBB2/1BBBBB2/6K1 w - - 0 1"),
     // --- many men of one kind (promoted material): bit-iteration order, fixed-size buffers
     ("many", "R6R/3Q4/1Q4Q1/4Q3/2Q4Q/Q4Q2/pp1Q4/kBNN1KB1 w - - 0 1"),
     ("many", "7k/7p/Q1Q1Q3/6Q1/1Q6/3Q1Q2/Q1Q5/4K2R w K - 0 1"),
@@ -407,6 +419,73 @@ impl Family for EpTwoFamily {
         }
         Some(p)
     }
+}
+
+/// En-passant family with TWO enemy sliders: pushed pawn and one capturer, the capturing side's king
+/// anywhere, two enemy sliders on squares ALIGNED with that king (same rank, file or diagonal; a slider
+/// elsewhere cannot matter to the capture's legality), the other king on the first square of a fixed list
+/// that gives a valid position.  `fitting`: rooks / queens on the king's rank and file, bishops / queens on
+/// its diagonals only (else every slider kind on every aligned square).
+pub fn ep_two_sliders_family(fitting: bool) -> ListFamily {
+    use rayon::prelude::*;
+    let jobs: Vec<(Col, i8, i8, u8)> = [Col::W, Col::B].into_iter().flat_map(|c| (0..8i8).flat_map(move |f| [-1i8, 1].into_iter().flat_map(move |d| (0..64u8).map(move |k| (c, f, d, k))))).collect();
+    let items: Vec<RefPos> = jobs
+        .par_iter()
+        .flat_map_iter(|(pusher, f, d, ksq)| {
+            let mut out = vec![];
+            if !(0..8).contains(&(f + d)) {
+                return out;
+            }
+            let me = pusher.flip();
+            let r = pusher.dp_rank();
+            let mut base = RefPos::empty();
+            base.stm = me;
+            base.put(sq(*f, r), Kind::P, *pusher);
+            base.put(sq(f + d, r), Kind::P, me);
+            if !place(&mut base, *ksq, Kind::K, me) {
+                return out;
+            }
+            base.dp = *f;
+            // squares aligned with the king, with the slider kinds offered there
+            let mut opts: Vec<(Sq, Kind)> = vec![];
+            for s in 0..64u8 {
+                if s == *ksq || base.bd[s as usize] != 0 {
+                    continue;
+                }
+                let (df, dr) = (file_of(s) - file_of(*ksq), rank_of(s) - rank_of(*ksq));
+                let orth = df == 0 || dr == 0;
+                let diag = df.abs() == dr.abs();
+                if !orth && !diag {
+                    continue;
+                }
+                for k in [Kind::R, Kind::B, Kind::Q] {
+                    if fitting && ((k == Kind::R && !orth) || (k == Kind::B && !diag)) {
+                        continue;
+                    }
+                    opts.push((s, k));
+                }
+            }
+            for i in 0..opts.len() {
+                for j in (i + 1)..opts.len() {
+                    if opts[i].0 == opts[j].0 {
+                        continue;
+                    }
+                    let mut p = base;
+                    p.put(opts[i].0, opts[i].1, *pusher);
+                    p.put(opts[j].0, opts[j].1, *pusher);
+                    for ok in [63u8, 56, 7, 0, 60, 4, 39, 32] {
+                        let mut q = p;
+                        if place(&mut q, ok, Kind::K, *pusher) && q.is_valid() {
+                            out.push(q);
+                            break;
+                        }
+                    }
+                }
+            }
+            out
+        })
+        .collect();
+    ListFamily { label: format!("en-passant family with two enemy sliders aligned with the capturing side's king ({})", if fitting { "rooks / queens on its rank and file, bishops / queens on its diagonals" } else { "every slider kind on every aligned square" }), items }
 }
 
 /// Castling family: the side to move has king and rook(s) at home with a non-empty rights subset;
@@ -835,6 +914,152 @@ fn apply_pin(p: &mut RefPos, ksq: Sq, me: Col, s: &PinSpec) -> bool {
     place(p, sq(a.0, a.1), s.kind, me) && place(p, sq(b.0, b.1), s.pinner, me.flip())
 }
 
+/// Pairs of different positions whose library hashes agree in a TRUNCATION of the 64-bit key (low 32,
+/// high 32, low 16, xor-folded 32 bits): a memo inside the library that is keyed by a narrowed hash
+/// confuses exactly such positions when they are asked about one after the other.  Source: all 3-man
+/// positions and the en-passant family (about 4 M positions); up to `per_kind` pairs per truncation.
+pub fn hash_collision_pairs(per_kind: usize) -> Vec<(RefPos, RefPos, &'static str)> {
+    hash_collision_pairs_from(per_kind, false)
+}
+/// `big`: also all placements of K+Q v K+R (17 M more positions), enough for a few hundred pairs that
+/// agree in 40 bits (an 8-bit slot index plus a 32-bit signature)
+pub fn hash_collision_pairs_from(per_kind: usize, big: bool) -> Vec<(RefPos, RefPos, &'static str)> {
+    use rayon::prelude::*;
+    let mut all: Vec<RefPos> = vec![];
+    for f in three_man_families() {
+        all.extend(collect(&f));
+    }
+    all.extend(collect(&EpFamily { extra: Extra::None, pre_push: false }));
+    let hashed: Vec<(u64, RefPos)> = all.par_iter().filter_map(|p| crate::bridge::from_scratch(p).ok().map(|b| (b.get_hash(), *p))).collect();
+    let mut out = vec![];
+    let kinds: [(&'static str, fn(u64) -> u64); 7] = [("low 32 bits", |h| h & 0xFFFF_FFFF), ("high 32 bits", |h| h >> 32), ("low 16 bits", |h| h & 0xFFFF), ("low 24 bits", |h| h & 0xFF_FFFF), ("xor-folded 32 bits", |h| (h ^ (h >> 32)) & 0xFFFF_FFFF), ("high 32 bits and low 8 bits", |h| (h >> 32 << 8) | (h & 0xFF)), ("high 16 bits and low 16 bits", |h| (h >> 48 << 16) | (h & 0xFFFF))];
+    for (name, f) in kinds {
+        let mut v: Vec<(u64, u64, RefPos)> = hashed.iter().map(|(h, p)| (f(*h), *h, *p)).collect();
+        v.par_sort_unstable_by_key(|x| (x.0, x.1));
+        let mut n = 0;
+        let mut i = 0;
+        while i + 1 < v.len() && n < per_kind {
+            if v[i].0 == v[i + 1].0 && v[i].1 != v[i + 1].1 {
+                out.push((v[i].2, v[i + 1].2, name));
+                out.push((v[i + 1].2, v[i].2, name));
+                n += 1;
+                i += 2;
+            } else {
+                i += 1;
+            }
+        }
+        if std::env::var("CV_DEBUG_PAIRS").is_ok() {
+            eprintln!("hash_collision_pairs: {name}: {n} pairs among {} positions", hashed.len());
+        }
+    }
+    if big {
+        out.extend(wide_collision_pairs(per_kind));
+    }
+    out
+}
+
+/// Agreements in 40 bits (a 32-bit signature plus an 8-bit slot index) need tens of millions of positions.
+/// For K+Q v K+R (33 M placements x side) the library's key of a placement is predicted from per-square key
+/// differences observed on three-man positions (hash(with the man) ^ hash(without)), candidates are found
+/// by sorting the predicted keys, and every candidate pair is then CONFIRMED on the real library: both
+/// positions must be valid, constructible and their real hashes must agree in the 40 bits.  If the library's
+/// hash is not XOR-structured the predictions are wrong and no pair is confirmed (nothing is assumed).
+fn wide_collision_pairs(per_kind: usize) -> Vec<(RefPos, RefPos, &'static str)> {
+    use rayon::prelude::*;
+    let h = |p: &RefPos| crate::bridge::from_scratch(p).ok().map(|b| b.get_hash());
+    let base = |wk: Sq, bk: Sq, stm: Col| {
+        let mut p = RefPos::empty();
+        p.put(wk, Kind::K, Col::W);
+        p.put(bk, Kind::K, Col::B);
+        p.stm = stm;
+        p
+    };
+    // reference corner kings; a second pair of squares for probes that collide with the first
+    let (a1, h8, a8, h1) = (sq(0, 0), sq(7, 7), sq(0, 7), sq(7, 0));
+    let key_of = |kind: Kind, col: Col, s: Sq| -> Option<u64> {
+        // the man's owner is to move, so that it may attack the enemy king
+        for (wk, bk) in [(a1, h8), (h1, a8), (a8, h1), (h8, a1)] {
+            if s == wk || s == bk {
+                continue;
+            }
+            let b0 = base(wk, bk, col);
+            let mut b1 = b0;
+            b1.put(s, kind, col);
+            if let (true, true, Some(x), Some(y)) = (b0.is_valid(), b1.is_valid(), h(&b0), h(&b1)) {
+                return Some(x ^ y);
+            }
+        }
+        None
+    };
+    let kq: Vec<Option<u64>> = (0..64u8).map(|s| key_of(Kind::Q, Col::W, s)).collect();
+    let kr: Vec<Option<u64>> = (0..64u8).map(|s| key_of(Kind::R, Col::B, s)).collect();
+    // king keys relative to a1 / h8
+    let kw: Vec<Option<u64>> = (0..64u8).map(|s| if s == a1 { Some(0) } else { let (p0, p1) = (base(a1, h8, Col::W), base(s, h8, Col::W)); if s != h8 && p1.is_valid() { Some(h(&p0)? ^ h(&p1)?) } else { None } }).collect();
+    let kb: Vec<Option<u64>> = (0..64u8).map(|s| if s == h8 { Some(0) } else { let (p0, p1) = (base(a1, h8, Col::W), base(a1, s, Col::W)); if s != a1 && p1.is_valid() { Some(h(&p0)? ^ h(&p1)?) } else { None } }).collect();
+    let side = match (h(&base(a1, h8, Col::W)), h(&base(a1, h8, Col::B))) {
+        (Some(x), Some(y)) => x ^ y,
+        _ => return vec![],
+    };
+    let trunc = |x: u64| (x >> 32 << 8) | (x & 0xFF);
+    let mut v: Vec<(u64, u32)> = (0..64u32 * 64 * 64)
+        .into_par_iter()
+        .flat_map_iter(|i| {
+            let (wk, bk, q) = ((i & 63) as usize, ((i >> 6) & 63) as usize, ((i >> 12) & 63) as usize);
+            let mut out = vec![];
+            if let (Some(a), Some(b), Some(c)) = (kw[wk], kb[bk], kq[q]) {
+                if wk != bk && wk != q && bk != q {
+                    for r in 0..64usize {
+                        if r != wk && r != bk && r != q {
+                            if let Some(d) = kr[r] {
+                                let x = a ^ b ^ c ^ d;
+                                let code = (i << 7) | ((r as u32) << 1);
+                                out.push((trunc(x), code));
+                                out.push((trunc(x ^ side), code | 1));
+                            }
+                        }
+                    }
+                }
+            }
+            out
+        })
+        .collect();
+    v.par_sort_unstable();
+    let decode = |code: u32| {
+        let i = code >> 7;
+        let mut p = RefPos::empty();
+        p.put((i & 63) as u8, Kind::K, Col::W);
+        p.put(((i >> 6) & 63) as u8, Kind::K, Col::B);
+        p.put(((i >> 12) & 63) as u8, Kind::Q, Col::W);
+        p.put(((code >> 1) & 63) as u8, Kind::R, Col::B);
+        p.stm = if code & 1 == 1 { Col::B } else { Col::W };
+        p
+    };
+    let mut out = vec![];
+    let mut i = 0;
+    let mut confirmed = 0;
+    while i + 1 < v.len() && confirmed < per_kind {
+        if v[i].0 == v[i + 1].0 {
+            let (p1, p2) = (decode(v[i].1), decode(v[i + 1].1));
+            if p1 != p2 && p1.is_valid() && p2.is_valid() {
+                if let (Some(x), Some(y)) = (h(&p1), h(&p2)) {
+                    if x != y && trunc(x) == trunc(y) {
+                        out.push((p1, p2, "high 32 bits and low 8 bits (K+Q v K+R)"));
+                        out.push((p2, p1, "high 32 bits and low 8 bits (K+Q v K+R)"));
+                        confirmed += 1;
+                    }
+                }
+            }
+            i += 2;
+        } else {
+            i += 1;
+        }
+    }
+    if std::env::var("CV_DEBUG_PAIRS").is_ok() {
+        eprintln!("wide_collision_pairs: {confirmed} confirmed pairs among {} predicted keys", v.len());
+    }
+    out
+}
+
 /// A family given by an explicit list.
 pub struct ListFamily {
     pub label: String,
@@ -902,12 +1127,14 @@ pub fn rank_pattern_family() -> ListFamily {
 /// optionally further enemy sliders behind it (a battery) at l > j (and m > l on single rays);
 /// sliders of every kind (a rook on a diagonal pins nothing); squares in between empty.  The other
 /// king goes to the first square of a fixed list that gives a valid position; both sides to move.
-/// `rich`: own man in {N, P, Q} (else N), pinner in {R, B, Q} (else the fitting kind and Q).
+/// `rich`: first man in {own N, P, Q, R, B; enemy N, P} (else own N), pinner in {R, B, Q} (else the fitting kind and Q).
 pub fn line_family(two_rays: bool, rich: bool) -> ListFamily {
     use rayon::prelude::*;
     #[derive(Clone)]
     struct RayFill(Vec<(Sq, Kind, bool)>); // (square, kind, own?)
-    let own_kinds: &[Kind] = if rich { &[Kind::N, Kind::P, Kind::Q] } else { &[Kind::N] };
+    // first man on the ray: (kind, own?) — rich: any own man, or an ENEMY knight / pawn (no pin: a
+    // discovered-check battery of the other side)
+    let own_kinds: &[(Kind, bool)] = if rich { &[(Kind::N, true), (Kind::P, true), (Kind::Q, true), (Kind::R, true), (Kind::B, true), (Kind::N, false), (Kind::P, false)] } else { &[(Kind::N, true)] };
     let fills = |k: Sq, dir: usize, triple: bool| -> Vec<RayFill> {
         let (df, dr) = DIRS8[dir];
         let mut ray = vec![];
@@ -921,19 +1148,19 @@ pub fn line_family(two_rays: bool, rich: bool) -> ListFamily {
         let sl: Vec<Kind> = if rich { vec![Kind::R, Kind::B, Kind::Q] } else { vec![fit, Kind::Q] };
         let mut out = vec![];
         for i in 0..ray.len() {
-            for ok in own_kinds {
+            for (ok, own) in own_kinds {
                 if *ok == Kind::P && (rank_of(ray[i]) == 0 || rank_of(ray[i]) == 7) {
                     continue;
                 }
                 for j in (i + 1)..ray.len() {
                     for k1 in sl.iter() {
-                        out.push(RayFill(vec![(ray[i], *ok, true), (ray[j], *k1, false)]));
+                        out.push(RayFill(vec![(ray[i], *ok, *own), (ray[j], *k1, false)]));
                         for l in (j + 1)..ray.len() {
                             for k2 in sl.iter() {
-                                out.push(RayFill(vec![(ray[i], *ok, true), (ray[j], *k1, false), (ray[l], *k2, false)]));
+                                out.push(RayFill(vec![(ray[i], *ok, *own), (ray[j], *k1, false), (ray[l], *k2, false)]));
                                 if triple {
                                     for m in (l + 1)..ray.len() {
-                                        out.push(RayFill(vec![(ray[i], *ok, true), (ray[j], *k1, false), (ray[l], *k2, false), (ray[m], *k2, false)]));
+                                        out.push(RayFill(vec![(ray[i], *ok, *own), (ray[j], *k1, false), (ray[l], *k2, false), (ray[m], *k2, false)]));
                                     }
                                 }
                             }
@@ -997,7 +1224,7 @@ pub fn line_family(two_rays: bool, rich: bool) -> ListFamily {
         label: format!(
             "line geometry around a king: every king square x {} x (own man{}, enemy slider{}, optional battery behind it{}), both sides to move",
             if two_rays { "every pair of rays" } else { "every ray" },
-            if rich { " N/P/Q" } else { " N" },
+            if rich { " N/P/Q/R/B or an enemy N/P" } else { " N" },
             if rich { " R/B/Q" } else { " of the fitting kind or Q" },
             if two_rays { "" } else { " up to three deep" }
         ),
